@@ -857,6 +857,12 @@ fn builders_fam(c: &mut Case) {
     scverif::builders::case(c, "C08")
 }
 
+/// the uniform api traits (Predictor / SupervisedEstimator / UnsupervisedEstimator / Transformer) behave
+/// exactly like the inherent methods
+fn api_paths_fam(c: &mut Case) {
+    scverif::apipaths::case(c, "C08")
+}
+
 fn main() {
     runner::main(Spec {
         property: "C08",
@@ -870,6 +876,7 @@ fn main() {
             "alpha = 0 is allowed by the statement but excluded by its quantifier (alpha from 1e-3) and is not generated; constant targets (F* = 0, relative tolerance void) are checked only for termination, Ok, finiteness and an absolute objective slack of 1e-10·n·ȳ²",
         ],
         families: vec![
+            Family::new("api_paths", 300, 3000, api_paths_fam),
             Family::new("builders", 300, 3000, builders_fam),
             Family::new("lasso", 2000, 30000, lasso),
             Family::new("enet", 2000, 30000, enet),
